@@ -17,7 +17,10 @@ RULE = ("K: (a) OnOffSwitch.calculate_on_list / calculate_time_step_to_on_arr_id
         "sources (inactive step => bit-identical fields), run_fdtd detector state = the always-on detector's records "
         "at the distinct active steps in chronological order (exact; every quick run has detectors with the unsorted list "
         "[5,1,3] and the repeating list [2,2,4,9,4]), zero fields before the first active source step, "
-        "Source.adjust_time_step_by_on_off vs the model; every detector kind that stores per-step records (EnergyDetector "
+        "Source.adjust_time_step_by_on_off vs the model; MULTI-SOURCE increments: 2-5 dipoles (electric/magnetic, always-on default "
+        "switch, windows, interval, fixed steps, always-off) in a given and the reversed list order (search: every order): "
+        "the per-step increment of the multi-source scene = sum of the single-source increments of the sources that are "
+        "active at that step (each source observed alone via an ObjectContainer holding only it), zero from inactive ones; every detector kind that stores per-step records (EnergyDetector "
         "full / reduce_volume / as_slices by mean and by position, PoyntingFluxDetector reduce / full / keep_all, "
         "ClosedSurfacePoyntingFluxDetector, FieldDetector reduce / exact) with a schedule whose slot differs from the time step, "
         "next to an always-on twin: record j == twin's record at the j-th active step for every state key (all kinds in the "
@@ -353,7 +356,18 @@ def region_constraints(obj, region):
             obj.set_grid_coordinates(axes=(0, 1, 2), sides=("+", "+", "+"), coordinates=tuple(r[1] for r in region))]
 
 
-def build_scene(T, sw_e, sw_h, det_switches, with_sources=True, n=4, extras=()):
+def source_specs(sc):
+    """the scene's sources in list order: src_e / src_h (centre cell) plus sc["more"], permuted by sc["order"]"""
+    specs = [{"name": "src_e", "type": "electric", "pol": 2, "pos": None, "switch": sc["src_e"]},
+             {"name": "src_h", "type": "magnetic", "pol": 0, "pos": None, "switch": sc["src_h"]}]
+    specs += [dict(x) for x in sc.get("more", [])]
+    if sc.get("order"):
+        by = {x["name"]: x for x in specs}
+        specs = [by[n] for n in sc["order"]]
+    return specs
+
+
+def build_scene(T, sw_e, sw_h, det_switches, with_sources=True, n=4, extras=(), sources=None):
     """4^3 periodic box, electric + magnetic dipole (Gaussian pulse: non-zero at every time), FieldDetectors"""
     m = M()
     fdtdx, jnp, jax = m["fdtdx"], m["jnp"], m["jax"]
@@ -367,7 +381,14 @@ def build_scene(T, sw_e, sw_h, det_switches, with_sources=True, n=4, extras=()):
     cons += bc
     wc = fdtdx.WaveCharacter(wavelength=8 * RES)
     prof = fdtdx.GaussianPulseProfile(spectral_width=fdtdx.WaveCharacter(wavelength=16 * RES), center_wave=wc)
-    if with_sources:
+    if sources is not None:
+        for sp in sources:
+            sd = fdtdx.PointDipoleSource(name=sp["name"], partial_grid_shape=(1, 1, 1), wave_character=wc, polarization=sp["pol"],
+                                         source_type=sp["type"], temporal_profile=prof, switch=switch_of(sp["switch"]),
+                                         static_amplitude_factor=sp.get("amp", 1.0))
+            objs.append(sd)
+            cons += [sd.place_at_center(vol)] if sp["pos"] is None else region_constraints(sd, [(x, x + 1) for x in sp["pos"]])
+    elif with_sources:
         se = fdtdx.PointDipoleSource(name="src_e", partial_grid_shape=(1, 1, 1), wave_character=wc, polarization=2,
                                      temporal_profile=prof, switch=sw_e)
         sh = fdtdx.PointDipoleSource(name="src_h", partial_grid_shape=(1, 1, 1), wave_character=wc, polarization=0,
@@ -408,46 +429,70 @@ def run_scene_case(ctx, sc, check_model=True):
     jax, jnp, fdtdx, upd = m["jax"], m["jnp"], m["fdtdx"], m["upd"]
     T = sc["T"]
     extras = sc.get("extras", [])
-    o, a, cfg, _ = build_scene(T, switch_of(sc["src_e"]), switch_of(sc["src_h"]),
-                               [(switch_of(c), r) for c, r in sc["dets"]],
-                               extras=[(k, switch_of(c)) for k, c in extras])
-    o0, a0, cfg0, _ = build_scene(T, None, None, [(switch_of(c), r) for c, r in sc["dets"]], with_sources=False)
+    specs = source_specs(sc)
+    o, a, cfg, _ = build_scene(T, None, None, [(switch_of(c), r) for c, r in sc["dets"]],
+                               extras=[(k, switch_of(c)) for k, c in extras], sources=specs)
     assert cfg.time_steps_total == T, (cfg.time_steps_total, T)
     dt = float(cfg.time_step_duration)
     detail = None
-    exp = {}
-    for nm in ("src_e", "src_h"):
-        c = dict(sc[nm], T=T, dt=dt)
-        exp[nm] = oracle_on_list(c)
-    # ---- per-step gating of the four field updates against the source-free scene, random fields
+    exp = {sp["name"]: oracle_on_list(dict(sp["switch"], T=T, dt=dt)) for sp in specs}
+    stype = {sp["name"]: sp["type"] for sp in specs}
+    # ---- per-step injected increments: multi-source scene (every requested list order), each source alone, no source
+    from fdtdx.fdtd.container import ObjectContainer
+    src_names = [sp["name"] for sp in specs]
+    others = [x for x in o.object_list if x.name not in src_names]
+
+    def container(names):
+        lst = others + [o[nm] for nm in names]
+        return ObjectContainer(object_list=lst, volume_idx=[x.name for x in lst].index(o.volume.name))
+
     rs = np.random.RandomState(sc["seed"])
     shape = a.fields.E.shape
     E = jnp.asarray(rs.uniform(-1, 1, shape))
     H = jnp.asarray(rs.uniform(-1, 1, shape))
 
-    def stepper(fn, objs, config, arrays, rev):
+    def stepper(fn, objs, rev, which):
         extra = () if rev else (True,)
-        f = jax.jit(lambda t, E, H: fn(t, arrays.aset("fields->E", E).aset("fields->H", H), objs, config, *extra).fields)
-        return lambda t: f(jnp.asarray(t, dtype=jnp.int32), E, H)
+        f = jax.jit(lambda t, E, H: getattr(fn(t, a.aset("fields->E", E).aset("fields->H", H), objs, cfg, *extra).fields, which))
+        return lambda t: np.asarray(f(jnp.asarray(t, dtype=jnp.int32), E, H))
 
-    fns = {"update_E": (upd.update_E, "E", "src_e"), "update_H": (upd.update_H, "H", "src_h"),
-           "update_E_reverse": (upd.update_E_reverse, "E", "src_e"), "update_H_reverse": (upd.update_H_reverse, "H", "src_h")}
+    fns = {"update_E": (upd.update_E, "E", "electric"), "update_H": (upd.update_H, "H", "magnetic"),
+           "update_E_reverse": (upd.update_E_reverse, "E", "electric"), "update_H_reverse": (upd.update_H_reverse, "H", "magnetic")}
     if sc.get("only"):     # cheaper scenes exercise one direction of the time loop
         fns = {k: v for k, v in fns.items() if k.endswith("reverse") == (sc["only"] == "reverse")}
+    orders = [src_names] + [list(x) for x in sc.get("orders", []) if list(x) != src_names]
     differs = {}
-    for name, (fn, which, src) in fns.items():
+    for name, (fn, which, typ) in fns.items():
         rev = name.endswith("reverse")
-        with_s, without = stepper(fn, o, cfg, a, rev), stepper(fn, o0, cfg0, a0, rev)
-        d = []
-        for t in range(T):
-            x, y = getattr(with_s(t), which), getattr(without(t), which)
-            d.append(bool(np.any(np.asarray(x) != np.asarray(y))))
-        differs[name] = d
-        ctx.impl_property_evals += T
-        for t in range(T):
-            if d[t] and not exp[src][t] and detail is None:
-                detail = (f"{name} at inactive step {t} of source {src} changed the field "
-                          f"(schedule {bits(exp[src])}, changed at {bits(d)})")
+        base = stepper(fn, container([]), rev, which)
+        base_t = [base(t) for t in range(T)]
+        inc = {}
+        for nm in src_names:
+            if stype[nm] != typ:
+                continue            # a dipole of the other kind never touches this field (covered by the multi-source sum)
+            single = stepper(fn, container([nm]), rev, which)
+            inc[nm] = [single(t) - base_t[t] for t in range(T)]
+            differs[(name, nm)] = [bool(np.any(x != 0)) for x in inc[nm]]
+            ctx.impl_property_evals += T
+            for t in range(T):
+                if differs[(name, nm)][t] and not exp[nm][t] and detail is None:
+                    detail = (f"{name} at inactive step {t} of source {nm} (alone in the scene) changed the field "
+                              f"(schedule {bits(exp[nm])}, changed at {bits(differs[(name, nm)])})")
+        for order in orders:
+            multi = stepper(fn, container(order), rev, which)
+            for t in range(T):
+                got = multi(t) - base_t[t]
+                want = sum((inc[nm][t] for nm in inc if exp[nm][t]), np.zeros_like(got))
+                ctx.impl_property_evals += 1
+                amp = max(1.0, float(np.max(np.abs(want))), float(np.max(np.abs(got))))
+                if detail is None and not np.all(np.abs(got - want) <= 1e-12 * amp):
+                    on_now = [nm for nm in order if exp[nm][t]]
+                    lost = [nm for nm in inc if exp[nm][t] and np.any(inc[nm][t] != 0)
+                            and np.all(np.abs(got[np.nonzero(inc[nm][t])] ) <= 1e-12 * amp)]
+                    detail = (f"{name} at step {t} with sources listed as {order} (active now: {on_now}): the injected increment "
+                              f"is not the sum of the single-source increments of the active sources (max deviation "
+                              f"{float(np.max(np.abs(got - want))):.3e}"
+                              + (f"; the injection of {lost} is missing" if lost else "") + ")")
     extra_checks = []
     # ---- whole run: detector records
     try:
@@ -476,7 +521,7 @@ def run_scene_case(ctx, sc, check_model=True):
         if check_model:
             d_obj = o[f"x{i}"]
             extra_checks.append((i, kind, dict(c, T=T, dt=dt), d_obj))
-    first_on = min([t for nm in ("src_e", "src_h") for t in range(T) if exp[nm][t]] + [T])
+    first_on = min([t for nm in src_names for t in range(T) if exp[nm][t]] + [T])
     ctx.impl_property_evals += 1
     if detail is None and np.any(full[:first_on] != 0):
         detail = f"fields are non-zero before the first active source step {first_on}"
@@ -502,8 +547,9 @@ def run_scene_case(ctx, sc, check_model=True):
         if check_model:
             det_checks.append((i, c, red, got))
     if check_model:
-        names = list(fns)
-        lines = [line_of(c) for (_, c, _, _) in det_checks] + [line_of(dict(sc[fns[n][2]], T=T, dt=dt)) for n in names]
+        names = sorted(differs)          # (function, source) pairs observed alone
+        swc = {sp["name"]: dict(sp["switch"], T=T, dt=dt) for sp in specs}
+        lines = [line_of(c) for (_, c, _, _) in det_checks] + [line_of(swc[nm]) for (_, nm) in names]
         reps = ctx.driver.ask_many(lines)
         for (i, c, red, got), rep in zip(det_checks, reps):
             if rep.startswith("ok"):
@@ -535,12 +581,12 @@ def run_scene_case(ctx, sc, check_model=True):
                              (parts[0], parts[1], int(parts[2])))
         adj_req = []
         for name, rep in zip(names, reps[len(det_checks):]):
-            src = fns[name][2]
+            name, src = name
             if not rep.startswith("ok"):
                 ctx.mismatch("source-gating", {"scene": sc, "fn": name}, {"model": rep})
                 continue
             parts = [x.strip() for x in rep[3:].split("|")]
-            ctx.expect_equal("source-gating", {"scene": sc, "fn": name}, bits(differs[name]), parts[0])
+            ctx.expect_equal("source-gating", {"scene": sc, "fn": name, "src": src}, bits(differs[(name, src)]), parts[0])
             if name in ("update_E", "update_H") and parts[3] == "0":
                 idx = [int(x) for x in parts[1].split()]
                 adj_req += [(src, t, idx[t]) for t in range(T) if idx[t] >= 0]
@@ -561,9 +607,34 @@ def random_scene(rng, T, dt):
         c = random_switch_case(rng, T, dt, per=per, valid_only=True)
         return c
     kinds = sorted(EXTRA_KINDS)
+    more = [{"name": f"s{k + 2}", "type": rng.choice(["electric", "magnetic"]), "pol": rng.randint(0, 2),
+             "pos": [rng.randint(0, 3) for _ in range(3)], "switch": sw(), "amp": rng.choice([1.0, -0.5, 2.0])}
+            for k in range(rng.randint(0, 1))]
+    names = ["src_e", "src_h"] + [x["name"] for x in more]
+    order = rng.shuffle(names)
     return {"T": T, "src_e": sw(), "src_h": sw(), "dets": [[sw(), False], [sw(), rng.chance(0.5)]],
             "seed": rng.np_seed(), "only": rng.choice(["forward", "reverse"]),
-            "extras": [[rng.choice(kinds), sw(False)] for _ in range(2)]}
+            "extras": [[rng.choice(kinds), sw(False)] for _ in range(2)],
+            "more": more, "order": order, "orders": [order[::-1]]}
+
+
+def seed_sources(T, dt):
+    """five sources: always-on (default switch) and always-off dipoles listed among windowed / fixed-step ones"""
+    more = [{"name": "s2", "type": "electric", "pol": 1, "pos": [0, 1, 3], "switch": mk_case(T, dt), "amp": 0.7},
+            {"name": "s3", "type": "electric", "pol": 0, "pos": [3, 0, 0], "switch": mk_case(T, dt, off=True), "amp": 1.0},
+            {"name": "s4", "type": "magnetic", "pol": 2, "pos": [1, 3, 0], "switch": mk_case(T, dt, st=1 * dt, interval=2), "amp": -1.5}]
+    order = ["s2", "src_e", "s4", "src_h", "s3"]
+    return {"more": more, "order": order, "orders": [order[::-1]]}
+
+
+def with_all_orders(sc, cap=12):
+    """the scene with every list order of its sources (used by the failing-input search)"""
+    import itertools
+    names = [sp["name"] for sp in source_specs(sc)]
+    perms = [list(p) for p in itertools.permutations(names)]
+    if len(perms) > cap:
+        perms = perms[:: max(1, len(perms) // cap)][:cap]
+    return dict(sc, orders=perms)
 
 
 def seed_extras(T, dt):
@@ -603,7 +674,7 @@ def run(ctx):
                            [mk_case(10, dt, off=True), False], [mk_case(10, dt, fixed=[]), True],    # never active
                            [mk_case(10, dt, fixed=[5, 1, 3]), False],       # written out of time order
                            [mk_case(10, dt, fixed=[2, 2, 4, 9, 4]), False]],  # repeated steps: one record each
-                  "seed": 5, "extras": seed_extras(10, dt)}
+                  "seed": 5, "extras": seed_extras(10, dt), **seed_sources(10, dt)}
         d = run_scene_case(ctx, sc)
         ctx.case(sample={"op": "scene", "scene": sc} if i == 0 else None, nontrivial=("scene", i), group="scene", T=T)
         if d:
@@ -611,7 +682,13 @@ def run(ctx):
 
 
 # ------------------------------------------------------------------------------------------- S
+def canon_scene(sc):
+    import json
+    return json.dumps(sc, sort_keys=True, default=str)
+
+
 def search(ctx, hints):
+    tried = set()
     for h in hints:
         if isinstance(h, dict) and "T" in h and "dt" in h:
             d = property_fails_switch(h)
@@ -619,9 +696,14 @@ def search(ctx, hints):
                 ctx.violation({"kind": "switch", "case": h}, d)
                 return
         if isinstance(h, dict) and "scene" in h:
-            d = run_scene_case(ctx, h["scene"], check_model=False)
+            key = canon_scene(h["scene"])
+            if key in tried:
+                continue
+            tried.add(key)
+            sc = with_all_orders(h["scene"])
+            d = run_scene_case(ctx, sc, check_model=False)
             if d:
-                ctx.violation({"kind": "scene", "scene": h["scene"]}, d)
+                ctx.violation({"kind": "scene", "scene": sc}, d)
                 return
     # schedules, small T first
     saveT = ctx.tier
@@ -634,7 +716,7 @@ def search(ctx, hints):
     dt = scene_dt()
     rng = ctx.rng.fork()
     for i in range(30):
-        sc = random_scene(rng, rng.randint(4, 9), dt)
+        sc = with_all_orders(random_scene(rng, rng.randint(4, 9), dt), cap=6)
         d = run_scene_case(ctx, sc, check_model=False)
         if d:
             ctx.violation({"kind": "scene", "scene": sc}, d)
